@@ -46,6 +46,12 @@ pub struct Scenario {
     /// (file, byte offset): byte replaced by 0xFF on the disk
     pub nonutf8: Option<(String, usize)>,
     pub hash_seed: u64,
+    /// a second build by the same caller thread after the tree was edited: files written
+    /// (path -> text) and removed; the second build is judged against the paste of the edited tree
+    #[serde(default)]
+    pub then_write: BTreeMap<String, String>,
+    #[serde(default)]
+    pub then_remove: Vec<String>,
     pub intent: String,
     pub config: String,
 }
@@ -90,6 +96,8 @@ struct TreeGen<'a> {
     /// (dir, name, parent index, lines)
     files: Vec<(String, String, Option<usize>, Vec<String>)>,
     prepend: Vec<Vec<String>>,
+    has_children: Vec<bool>,
+    leaf_only: Vec<bool>,
     edges: Vec<(usize, usize, String)>,
     caller_dirs: Vec<String>,
     used_caller: BTreeSet<usize>,
@@ -126,7 +134,20 @@ impl<'a> TreeGen<'a> {
     fn new_file(&mut self, parent: usize) -> usize {
         let i = self.files.len();
         let ext = ["inc", "inc", "asm", "h"][self.r.usize(4)];
-        self.files.push((String::new(), format!("f{}.{}", i, ext), Some(parent), vec![]));
+        // now and then the name of another file of the tree is used again: the same name then
+        // means different files for different includers (scenarios in which more than one file
+        // qualifies for one include are recognised by the model and not judged)
+        // Only leaves share names (the holder of the name and the new file include nothing), so
+        // whichever file a lookup picks, no include cycle can arise.
+        let mut anc = self.ancestors(parent);
+        anc.push(parent);
+        let reuse: Vec<String> = self.files.iter().enumerate().skip(1).filter(|(j, f)| f.2.is_some() && !anc.contains(j) && !self.has_children[*j]).map(|(_, f)| f.1.clone()).collect();
+        let dup = !reuse.is_empty() && self.r.chance(1, 5);
+        let name = if dup { reuse[self.r.usize(reuse.len())].clone() } else { format!("f{}.{}", i, ext) };
+        self.files.push((String::new(), name, Some(parent), vec![]));
+        self.has_children.push(false);
+        self.leaf_only.push(dup);
+        self.has_children[parent] = true;
         self.prepend.push(vec![]);
         i
     }
@@ -267,6 +288,8 @@ impl<'a> TreeGen<'a> {
                         let body = vec!["    inc r4".to_string(), format!("    ldi r20, {}", self.r.below(200)), "    nop ; shared leaf".to_string()];
                         self.files.push((self.caller_dirs[k].clone(), format!("twice{}.inc", t), None, body));
                         self.prepend.push(vec![]);
+                        self.has_children.push(false);
+                        self.leaf_only.push(true);
                         self.twice = Some(t);
                         t
                     }
@@ -275,13 +298,22 @@ impl<'a> TreeGen<'a> {
                 self.edges.push((file, t, "c2".into()));
                 out.push(Node::Lines(vec![format!(".include \"{}\"", self.files[t].1)]));
             }
-            let can_cut = depth < 4 && self.files.len() < self.max_files;
+            let can_cut = depth < 4 && self.files.len() < self.max_files && !self.leaf_only[file];
             if can_cut && self.r.chance(1, 4) {
                 let len = 1 + self.r.usize((nodes.len() - i).min(5));
                 let child_nodes: Vec<Node> = nodes[i..i + len].to_vec();
                 let child = self.new_file(file);
                 // the child's directory must be known before its own children are placed
-                let (written, pre) = self.place(child, file);
+                let (mut written, pre) = self.place(child, file);
+                // two files cannot share one path
+                let key = (self.files[child].0.clone(), self.files[child].1.clone());
+                if self.files.iter().enumerate().any(|(i, f)| i != child && f.0 == key.0 && f.1 == key.1) {
+                    let fresh = format!("u{}_{}", child, key.1);
+                    if let Some(pos) = written.rfind(&key.1) {
+                        written.replace_range(pos..pos + key.1.len(), &fresh);
+                    }
+                    self.files[child].1 = fresh;
+                }
                 let child_nodes = self.process(child_nodes, child, depth + 1);
                 let mut lines = vec![];
                 proggen::flatten_nodes(&child_nodes, &mut lines);
@@ -377,6 +409,8 @@ pub fn scenario_with(seed: u64, g: u64, layout: &Layout) -> Scenario {
         r: &mut r,
         files: vec![(main_dir.clone(), main_name.clone(), None, vec![])],
         prepend: vec![vec![]],
+        has_children: vec![false],
+        leaf_only: vec![false],
         edges: vec![],
         caller_dirs: caller_dirs.clone(),
         used_caller: BTreeSet::new(),
@@ -420,7 +454,7 @@ pub fn scenario_with(seed: u64, g: u64, layout: &Layout) -> Scenario {
     if tg.r.chance(1, 5) {
         paths.push("$R/no such dir".to_string());
     }
-    let cfgs = ["free", "free", "missing", "enum", "enum", "enum", "pair", "cap", "nonutf8", "enum"];
+    let cfgs = ["free", "twice", "missing", "enum", "enum", "enum", "pair", "cap", "nonutf8", "enum", "twice"];
     let config = cfgs[tg.r.usize(cfgs.len())].to_string();
     Scenario {
         engine: "inctree".into(),
@@ -435,6 +469,8 @@ pub fn scenario_with(seed: u64, g: u64, layout: &Layout) -> Scenario {
         missing: None,
         nonutf8: None,
         hash_seed: seed,
+        then_write: BTreeMap::new(),
+        then_remove: vec![],
         intent: prog.intent,
         config,
     }
@@ -509,6 +545,95 @@ pub fn run_tree(disk: &Disk, sc: &Scenario, budget: u64) -> Result<TreeRun, Stri
     st.budget = budget;
     let run = run_simulated(st, move || avra_lib::builder::build_file(main, paths).map_err(|e| e.to_string()));
     Ok(TreeRun { outcome: Outcome::from(run.result), state: run.state })
+}
+
+/// Two builds of the same arguments by one caller thread, the tree edited in between.
+pub fn run_tree_twice(disk: &Disk, sc: &Scenario) -> Result<(Outcome, TreeRun), String> {
+    let rs = disk.root_str();
+    let main = PathBuf::from(sc.main.replace("$R", &rs));
+    let paths: std::collections::BTreeSet<PathBuf> = sc.paths.iter().map(|p| PathBuf::from(p.replace("$R", &rs))).collect();
+    let mut st = SimState::new(&rs);
+    st.hash_seed = sc.hash_seed;
+    let writes: Vec<(PathBuf, String)> = sc.then_write.iter().map(|(k, v)| (disk.root.join(k), v.replace("$R", &rs))).collect();
+    let removes: Vec<PathBuf> = sc.then_remove.iter().map(|k| disk.root.join(k)).collect();
+    let run = run_simulated(st, move || {
+        let first = std::panic::catch_unwind(std::panic::AssertUnwindSafe(|| avra_lib::builder::build_file(main.clone(), paths.clone()).map_err(|e| e.to_string())));
+        crate::simlibc::bypass(|| {
+            for p in &removes {
+                let _ = std::fs::remove_file(p);
+            }
+            for (p, t) in &writes {
+                if let Some(d) = p.parent() {
+                    let _ = std::fs::create_dir_all(d);
+                }
+                let _ = std::fs::write(p, t);
+            }
+        });
+        let second = avra_lib::builder::build_file(main, paths).map_err(|e| e.to_string());
+        (first, second)
+    });
+    match run.result {
+        Ok((first, second)) => {
+            let f = Outcome::from(match first {
+                Ok(r) => Ok(r),
+                Err(p) => Err(panic_text(p)),
+            });
+            Ok((f, TreeRun { outcome: Outcome::from(Ok(second)), state: run.state }))
+        }
+        Err(p) => Ok((Outcome::Panic(p.clone()), TreeRun { outcome: Outcome::Panic(p), state: run.state })),
+    }
+}
+
+pub fn edited_files(sc: &Scenario) -> BTreeMap<String, String> {
+    let mut f = present_files(sc);
+    for k in &sc.then_remove {
+        f.remove(k);
+    }
+    for (k, v) in &sc.then_write {
+        f.insert(k.clone(), v.clone());
+    }
+    f
+}
+
+/// Judge the second build of a "twice" scenario against the paste of the edited tree.
+fn run_twice(cx: &mut Ctx, sc: &Scenario, seed: u64) -> Option<u64> {
+    let files = edited_files(sc);
+    let world = World { files: &files, cwd: &sc.cwd, caller: &sc.paths };
+    let flat = match incmodel::paste(&world, &sc.main_file) {
+        Ok(f) => f,
+        Err(e) => {
+            cx.stats.harness_errors.push(e);
+            return None;
+        }
+    };
+    let mut clean = sc.clone();
+    clean.rules.clear();
+    clean.read_cap = 0;
+    clean.nonutf8 = None;
+    if let Err(e) = cx.disk.materialise(&clean) {
+        cx.stats.harness_errors.push(e);
+        return None;
+    }
+    let rs = cx.disk.root_str();
+    let flat_out = run_flat(cx.disk, &flat.text.replace("$R", &rs), sc.hash_seed);
+    let (_first, second) = match run_tree_twice(cx.disk, &clean) {
+        Ok(x) => x,
+        Err(e) => {
+            cx.stats.harness_errors.push(e);
+            return None;
+        }
+    };
+    cx.stats.runs += 1;
+    cx.stats.fault_free_runs += 1;
+    cx.stats.steps += second.state.steps;
+    cx.stats.count("second_builds_after_an_edit", 1);
+    if let Some(mut v) = judge_world(&clean, &second.outcome, &flat_out, &flat, &rs, &second.state.trace, seed) {
+        v.class = format!("second-build-after-edit:{}", v.class);
+        v.signature = format!("{} then=edit", v.signature.replace("class=", "class=second-build-after-edit:"));
+        cx.found += 1;
+        (cx.emit)(v);
+    }
+    Some(fnv(second.outcome.short().replace(&rs, "$R").as_bytes()))
 }
 
 pub fn run_flat(disk: &Disk, text: &str, hash_seed: u64) -> Outcome {
@@ -616,6 +741,9 @@ pub fn present_files(sc: &Scenario) -> BTreeMap<String, String> {
 pub fn judge_world(sc: &Scenario, tree: &Outcome, flat_out: &Outcome, flat: &Flat, root: &str, trace: &[Event], seed: u64) -> Option<Violation> {
     if matches!(flat_out, Outcome::Panic(_)) {
         return None; // the pasted text panics in isolation: a C16 matter, excluded and counted
+    }
+    if !flat.ambiguous.is_empty() {
+        return None; // several files qualify for one include: which one wins is not stated
     }
     let tail = trace_tail(trace, 16);
     // the last clause of the property: a file found nowhere fails the build with an error naming it
@@ -828,7 +956,7 @@ fn run_world(cx: &mut Ctx, sc: &Scenario, seed: u64, judge: bool) -> Option<Base
         incmodel::paste(&world, &sc.main_file)
     } else {
         // the main file itself is found nowhere: the build fails naming it
-        Ok(Flat { text: format!(".error \"{}{}\"\n", incmodel::MARKER, sc.main), map: vec![(sc.main_file.clone(), 1)], undocumented: vec![], unresolvable: vec![sc.main.clone()], resolved: vec![] })
+        Ok(Flat { text: format!(".error \"{}{}\"\n", incmodel::MARKER, sc.main), map: vec![(sc.main_file.clone(), 1)], undocumented: vec![], unresolvable: vec![sc.main.clone()], resolved: vec![], ambiguous: vec![] })
     };
     let flat = match pasted {
         Ok(f) => f,
@@ -947,7 +1075,13 @@ fn run_faulted(cx: &mut Ctx, sc: &Scenario, base: &Base, seed: u64, g: u64) -> u
     if cx.stats.samples.len() < 3 && !fired.is_empty() && g % 5 == 0 {
         cx.stats.samples.push(json!({"scenario": sc, "outcome": run.outcome.short(), "fault_free": fault_free.short(), "fired": fired, "trace": run.state.trace.iter().map(event_line).collect::<Vec<_>>()}));
     }
-    if let Some(v) = judge_faulted(sc, &run, fault_free, seed) {
+    // several files qualify for one include: a fault on one candidate legitimately leads to
+    // another file; not judged (the statement does not say which one wins)
+    let judged = base.flat.ambiguous.is_empty();
+    if !judged {
+        cx.stats.count("faulted_runs_not_judged_because_a_lookup_is_ambiguous", 1);
+    }
+    if let Some(v) = judge_faulted(sc, &run, fault_free, seed).filter(|_| judged) {
         cx.found += 1;
         (cx.emit)(v);
     }
@@ -988,6 +1122,9 @@ pub fn worker(cfg: &WorkerCfg, emit: &mut dyn FnMut(Violation)) -> Stats {
         if matches!(base.flat_out, Outcome::Panic(_)) {
             cx.stats.exclude("pasted text panics in isolation (a C16 matter)");
         }
+        if !base.flat.ambiguous.is_empty() {
+            cx.stats.exclude("several files qualify for one include (which one wins is not stated)");
+        }
         if !base.flat.undocumented.is_empty() {
             cx.stats.count("scenarios_with_an_include_outside_documented_places", 1);
         }
@@ -1012,6 +1149,8 @@ pub fn worker(cfg: &WorkerCfg, emit: &mut dyn FnMut(Violation)) -> Stats {
         cx.stats.probe("exit_in_an_included_file_with_lines_after_it", opened.iter().any(|e| sc.files.get(&e.1).map(|t| t.lines().any(|l| l.trim() == ".exit")).unwrap_or(false)));
         cx.stats.probe("device_inside_an_include", opened.iter().any(|e| sc.files.get(&e.1).map(|t| t.contains(".device ")).unwrap_or(false)));
         cx.stats.probe("file_included_more_than_once", sc.edges.iter().filter(|e| e.2 == "c2").count() >= 2);
+        cx.stats.probe("second_build_after_an_include_was_edited", false);
+        cx.stats.probe("second_build_after_an_include_was_moved", false);
         cx.stats.probe("cwd_deep_below_the_root", sc.cwd.contains('/'));
         cx.stats.probe("cwd_is_the_main_files_directory", incmodel::dirname(&sc.main_file) == sc.cwd);
         cx.stats.probe("include_inside_a_conditional_branch", {
@@ -1132,6 +1271,34 @@ pub fn worker(cfg: &WorkerCfg, emit: &mut dyn FnMut(Violation)) -> Stats {
                 f.nonutf8 = Some((k, r.usize(len)));
                 digest ^= run_faulted(&mut cx, &f, &base, seed, g);
             }
+            "twice" if !opened.is_empty() => {
+                // the same thread builds again after one included file was edited or moved to
+                // another documented place (a cache that survives a build serves stale lines)
+                let e = opened[r.usize(opened.len())];
+                let mut f = sc.clone();
+                if let Some(text) = sc.files.get(&e.1) {
+                    let written = incmodel::basename(&e.1).to_string();
+                    let dest = format!("{}/{}", sc.cwd, written);
+                    if r.chance(1, 2) || sc.files.contains_key(&dest) || e.2 == "w" || e.2 == "a" {
+                        f.then_write.insert(e.1.clone(), format!("    ldi r20, {}\n{}", 10 + r.below(200), text));
+                        cx.stats.probe("second_build_after_an_include_was_edited", true);
+                    } else if let Some(name) = sc.files.values().flat_map(|t| t.lines()).filter_map(parse_include).find(|n| basename(n) == written) {
+                        // moved to "the path as written" relative to the cwd
+                        if let Some(d) = incmodel::join_norm(&sc.cwd, &name) {
+                            f.then_remove.push(e.1.clone());
+                            f.then_write.insert(d, format!("    ldi r21, {}\n{}", 10 + r.below(200), text));
+                            cx.stats.probe("second_build_after_an_include_was_moved", true);
+                        }
+                    }
+                    if let Some(d) = run_twice(&mut cx, &f, seed) {
+                        digest ^= d;
+                    }
+                    if let Err(e) = disk.materialise(&sc) {
+                        cx.stats.harness_errors.push(e);
+                        break;
+                    }
+                }
+            }
             "cap" => {
                 let mut f = sc.clone();
                 f.read_cap = [1usize, 3, 64][r.usize(3)];
@@ -1194,7 +1361,10 @@ pub fn replay(scv: &Value) -> Result<Option<Violation>, String> {
     {
         let mut emit = |v: Violation| got.push(v);
         let mut cx = Ctx { disk: &disk, stats: &mut stats, emit: &mut emit, found: 0 };
-        let base = run_world(&mut cx, &sc, 0, true);
+        if !sc.then_write.is_empty() || !sc.then_remove.is_empty() {
+            run_twice(&mut cx, &sc, 0);
+        }
+        let base = if cx.found == 0 { run_world(&mut cx, &sc, 0, true) } else { None };
         let faulted = !sc.rules.is_empty() || sc.read_cap > 0 || sc.nonutf8.is_some();
         if let (Some(base), true) = (base, faulted) {
             disk.materialise(&sc)?;
@@ -1275,6 +1445,12 @@ pub fn shrink(scv: &Value) -> Vec<Value> {
     if sc.nonutf8.is_some() {
         let mut s = sc.clone();
         s.nonutf8 = None;
+        push(s);
+    }
+    if !sc.then_write.is_empty() || !sc.then_remove.is_empty() {
+        let mut s = sc.clone();
+        s.then_write.clear();
+        s.then_remove.clear();
         push(s);
     }
     // files that nothing includes (any more)
